@@ -13,23 +13,23 @@ import (
 
 // Exception class names.
 const (
-	ExcNSRE          = "org.apache.hadoop.hbase.NotServingRegionException"
-	ExcRegionMoved   = "org.apache.hadoop.hbase.exceptions.RegionMovedException"
-	ExcRegionOpening = "org.apache.hadoop.hbase.exceptions.RegionOpeningException"
-	ExcTooBusy       = "org.apache.hadoop.hbase.RegionTooBusyException"
-	ExcCallQueue     = "org.apache.hadoop.hbase.CallQueueTooBigException"
-	ExcThrottling    = "org.apache.hadoop.hbase.quotas.RpcThrottlingException"
-	ExcRetryImm      = "org.apache.hadoop.hbase.RetryImmediatelyException"
-	ExcPleaseHold    = "org.apache.hadoop.hbase.PleaseHoldException"
-	ExcAborted       = "org.apache.hadoop.hbase.regionserver.RegionServerAbortedException"
-	ExcStopped       = "org.apache.hadoop.hbase.regionserver.RegionServerStoppedException"
-	ExcMasterStopped = "org.apache.hadoop.hbase.exceptions.MasterStoppedException"
-	ExcNotRunningYet = "org.apache.hadoop.hbase.ipc.ServerNotRunningYetException"
-	ExcWrongRegion   = "org.apache.hadoop.hbase.regionserver.WrongRegionException"
-	ExcDoNotRetry    = "org.apache.hadoop.hbase.DoNotRetryIOException"
-	ExcNoSuchCF      = "org.apache.hadoop.hbase.regionserver.NoSuchColumnFamilyException"
+	ExcNSRE           = "org.apache.hadoop.hbase.NotServingRegionException"
+	ExcRegionMoved    = "org.apache.hadoop.hbase.exceptions.RegionMovedException"
+	ExcRegionOpening  = "org.apache.hadoop.hbase.exceptions.RegionOpeningException"
+	ExcTooBusy        = "org.apache.hadoop.hbase.RegionTooBusyException"
+	ExcCallQueue      = "org.apache.hadoop.hbase.CallQueueTooBigException"
+	ExcThrottling     = "org.apache.hadoop.hbase.quotas.RpcThrottlingException"
+	ExcRetryImm       = "org.apache.hadoop.hbase.RetryImmediatelyException"
+	ExcPleaseHold     = "org.apache.hadoop.hbase.PleaseHoldException"
+	ExcAborted        = "org.apache.hadoop.hbase.regionserver.RegionServerAbortedException"
+	ExcStopped        = "org.apache.hadoop.hbase.regionserver.RegionServerStoppedException"
+	ExcMasterStopped  = "org.apache.hadoop.hbase.exceptions.MasterStoppedException"
+	ExcNotRunningYet  = "org.apache.hadoop.hbase.ipc.ServerNotRunningYetException"
+	ExcWrongRegion    = "org.apache.hadoop.hbase.regionserver.WrongRegionException"
+	ExcDoNotRetry     = "org.apache.hadoop.hbase.DoNotRetryIOException"
+	ExcNoSuchCF       = "org.apache.hadoop.hbase.regionserver.NoSuchColumnFamilyException"
 	ExcUnknownScanner = "org.apache.hadoop.hbase.UnknownScannerException"
-	ExcIO            = "java.io.IOException"
+	ExcIO             = "java.io.IOException"
 )
 
 type rowData struct {
